@@ -4,7 +4,7 @@ import json
 MODULE = "Freshness"
 ASSUMPTIONS = [
     "equal exchange timestamps: keep or replace are both allowed (the code replaces balances/orders and keeps market data)",
-    "L1 events carry last_update_time == time_exchange (as every connector does); exchange times are after the Unix epoch",
+    "L1 events carry last_update_time == time_exchange (as every connector does); exchange times are after the Unix epoch and carry microseconds",
     "order reports in this driver are partial fills of a large order, so the order stays tracked (the lifecycle itself is C01's subject)",
     "a full account snapshot is applied balances first, then instruments, as EngineState::update_from_account does; the trace logs the applied order",
 ]
@@ -16,6 +16,8 @@ def anomaly(line):
     for k, v in (line.get("post") or {}).items():
         if not isinstance(v.get("v"), int):
             return "item %s holds %s: not a value that was delivered as one message" % (k, json.dumps(v))
+        if not isinstance(v.get("t"), int):
+            return "item %s holds the timestamp %s: no message carried it (timestamps of this driver have microseconds)" % (k, json.dumps(v.get("t")))
     return None
 
 
